@@ -42,10 +42,11 @@ theorem Frame_pack_eq (f : Frame) (h : Frame_WF f) : f.pack = .ok (frameBytes f)
   simp [frameBytes, h5]
 
 /-- decoding a frame's bytes (no sync extraction) into a packed-mode object of the same time-stamp
-    kind and alignment: the time stamp, the data header and the data are set, nothing else changes -/
+    kind and alignment: the time stamp, the data header and the data are set, sync word and SFID cleared -/
 theorem Frame_unpack_bytes (f t : Frame) (h : Frame_WF f) (ht : t.throughput = false)
     (hk : sameKind t.ipts f.ipts) (ha : t.alignment = f.alignment) :
-    Frame.unpack t (frameBytes f) false = ({ t with ipts := f.ipts, hdr := f.hdr, data := f.data }, .ok ()) := by
+    Frame.unpack t (frameBytes f) false =
+      ({ t with ipts := f.ipts, hdr := f.hdr, data := f.data, syncword := Option.none, sfid := Option.none }, .ok ()) := by
   obtain ⟨h1, h2, h3, h4, ⟨hv, h5, h6⟩, h7, h8⟩ := h
   have htn : t.ipts ≠ .none := by
     intro hn; rw [hn] at hk; cases hi : f.ipts <;> simp_all [sameKind]
@@ -88,7 +89,7 @@ theorem slotBytes_length (f : Frame) : (slotBytes f).length = (frameBytes f).len
 theorem decFrames_enc (proto : Frame) (fs : List Frame) (pre : Bytes) (req fuel : Nat) (hfuel : fs.length < fuel)
     (hreq : 1 ≤ req)
     (hf : ∀ f ∈ fs, Frame_WF f ∧ (frameBytes f).length = req ∧ sameKind proto.ipts f.ipts ∧ proto.alignment = f.alignment ∧
-      { proto with ipts := f.ipts, hdr := f.hdr, data := f.data } = f)
+      { proto with ipts := f.ipts, hdr := f.hdr, data := f.data, syncword := Option.none, sfid := Option.none } = f)
     (hp : proto.throughput = false) :
     decFrames proto false req (pre ++ fs.flatMap slotBytes) fuel pre.length = .ok fs := by
   induction fs generalizing pre fuel with
